@@ -61,6 +61,54 @@ def worklist_idiom(prog, A, contains_ev, sid):
     return False
 
 
+TRANSPARENT_CALLS = re.compile(r"(Deref>?::deref|DerefMut>?::deref_mut|Clone>?::clone|clone::Clone::clone|borrow::Borrow::borrow|convert::AsRef::as_ref|String::as_str|string::String::clone|ops::deref::Deref::deref)$")
+
+
+def value_root(b, l, depth=0):
+    """where the value of local l comes from, through copies, references, field projections and transparent calls:
+    ("item", <local that receives an Iterator::next / Vec::pop result>) | ("idx", root of the index operand) | ("param", n) | ("local", l)"""
+    if depth > 12:
+        return ("local", l)
+    if 1 <= l <= b.argc:
+        return ("param", l)
+    defs = []
+    for bi, blk in enumerate(b.blocks):
+        if blk["cleanup"]:
+            continue
+        for s in blk["s"]:
+            if s["k"] == "assign" and not s["p"]["p"] and s["p"]["l"] == l:
+                defs.append(("s", s))
+        t = blk["t"]
+        if t["k"] == "call" and not t["dest"]["p"] and t["dest"]["l"] == l:
+            defs.append(("c", t))
+    if len(defs) != 1:
+        return ("local", l)
+    k, d = defs[0]
+    if k == "s":
+        rv = d["rv"]
+        pl = None
+        if rv["r"] == "use":
+            pl = mir.op_place(rv["a"])
+        elif rv["r"] == "ref":
+            pl = rv["p"]
+        elif rv["r"] == "cast":
+            pl = mir.op_place(rv["a"])
+        if pl is None:
+            return ("local", l)
+        return value_root(b, pl["l"], depth + 1)
+    nm = mir.strip_generics((d.get("res") or "").lstrip("?"))
+    if re.search(r"(Iterator::next|Vec::pop|IntoIterator::into_iter)$", nm) or nm.endswith("::next"):
+        return ("item", l)
+    if re.search(r"(Index>?::index|IndexMut>?::index_mut|ops::index::Index::index|ops::index::IndexMut::index_mut|ItemList::get|ItemList::get_mut|slice::<impl \[T\]>::get|Vec::get)$", nm) and len(d["args"]) == 2:
+        ip = mir.op_place(d["args"][1])
+        return ("idx", value_root(b, ip["l"], depth + 1) if ip else ("const", d["args"][1].get("k")))
+    if TRANSPARENT_CALLS.search(nm) and d["args"]:
+        ip = mir.op_place(d["args"][0])
+        if ip is not None:
+            return value_root(b, ip["l"], depth + 1)
+    return ("local", l)
+
+
 def run(chk):
     prog = mir.prog()
     n = refs.check_table_current(chk, "R10-table")
@@ -247,6 +295,27 @@ def run(chk):
         want = {"contains", "is_group_empty" if "groups" in fid else "is_function_empty"}
         if len(pushes) < 2:
             chk.add(Finding("R10-queue", "R10-queue::shape::" + fid, "%s: expected an initial scan and a re-queue site for the deletion queue, found %d push site(s)" % (fid, len(pushes)), b.where()))
+        # the three operands of a queueing decision denote one element: the index pushed, the name looked up in the used-set and
+        # the element tested for emptiness
+        for e, tests in conds:
+            pblk = b.blocks[e[6]]["t"]
+            parg = mir.op_place(pblk["args"][1]) if len(pblk["args"]) > 1 else None
+            proot = value_root(b, parg["l"]) if parg else None
+            for (sb, taken) in b.control_deps_closure(e[6]):
+                for cb in [sb] + list(b.preds()[sb]):
+                    t = b.blocks[cb]["t"]
+                    if t["k"] != "call" or not t.get("res"):
+                        continue
+                    nm = mir.strip_generics(t["res"].lstrip("?"))
+                    m = re.search(r"(HashSet::contains|is_group_empty|is_function_empty)$", nm)
+                    if not m or (t["t"] != sb and cb != sb):
+                        continue
+                    aop = t["args"][1] if m.group(1) == "HashSet::contains" else t["args"][0]
+                    apl = mir.op_place(aop)
+                    aroot = value_root(b, apl["l"]) if apl else None
+                    ok = aroot is not None and proot is not None and (aroot == ("idx", proot) or (aroot[0] == "item" and aroot == proot))
+                    if not ok:
+                        chk.add(Finding("R10-queue", "R10-queue::%s::operand::%s" % (fid, m.group(1).split("::")[-1]), "%s: the element queued for deletion and the element whose %s is tested are not the same element (queued: %s, tested: %s): a group/function that is still referenced, or not empty, can be deleted" % (fid, "name is looked up in the used-set" if "contains" in m.group(1) else "emptiness", proot, aroot), b.where(t["ln"])))
         for e, tests in conds:
             if not want <= tests:
                 chk.add(Finding("R10-queue", "R10-queue::%s::%s" % (fid, ",".join(sorted(want - tests))), "%s queues an element for deletion without testing %s: the protection by the used-set / the emptiness test applies only at one of the two queueing sites" % (fid, sorted(want - tests)), b.where(e[4])))
@@ -264,6 +333,16 @@ def run(chk):
                 holders.setdefault(list_ns[h], set()).add(h)
         for hns, hl in sorted(holders.items()):
             no += 1
+            if hns != ns:
+                # the holders are themselves removable: they must be cleaned before their references are counted as uses of `lst`
+                tcalls = [(bi, t["res"]) for bi, t in top.calls() if (t.get("res") or "").startswith("cleanup::") and t["res"] in prog.bodies]
+                reach = {f: set(prog.reachable([f])) | {f} for _, f in tcalls}
+                user = [(bi, f) for bi, f in tcalls if e[3] in reach[f]]
+                for h in sorted(hl):
+                    for re_ in removed_lists.get(h, []):
+                        rem = [(bi, f) for bi, f in tcalls if re_[3] in reach[f]]
+                        if len(user) == 1 and len(rem) == 1 and user[0][1] != rem[0][1] and not top.dominates(rem[0][0], user[0][0]):
+                            chk.add(Finding("R10-order", "R10-order::%s::before::%s" % (lst, h), "%s counts references from %s as uses of %s, but %s removes unused %s elements only afterwards: an element that is referenced only by a holder that is about to be deleted survives this run and is removed by the next one (cleanup is not idempotent)" % (user[0][1], h, lst, rem[0][1], h), top.where(top.blocks[user[0][0]]["t"]["ln"])))
             if hns == ns and not worklist_idiom(prog, A, e, sid):
                 chk.add(Finding("R10-order", "R10-order::self::" + lst, "%s elements refer to elements of the same namespace (%s) and the list is filtered in a single pass: a chain is only removed one link per cleanup() call, so running cleanup twice removes more than running it once" % (lst, sorted(cont & {p for p in cont if p.split('/')[0] in hl})), prog.bodies[e[3]].where(e[4])))
     chk.rule("R10-order", "removable namespaces whose used-set is fed by elements of a removable namespace (ordering / self reference)", no, floor=3)
